@@ -96,3 +96,11 @@ Definition data_rates_ok (spec drs : zmap data_rate) : bool :=
 
 (* TX power index i listed with offset v *)
 Definition tx_power_ok (i v : Z) : bool := v =? spec_tx_power_offset i.
+
+(* observed result of a max-payload query against the transcribed values *)
+Definition max_payload_value_ok (reg : region) (rep : bool) (ver rev : string) (dr : Z)
+           (o : outcome (Z * Z)) : bool :=
+  match spec_max_payload reg rep ver rev dr with
+  | Some s => outcome_eqb pair_eqb o (Ok s)
+  | None => true
+  end.
